@@ -623,6 +623,37 @@ fn clip(s: &str) -> String {
     }
 }
 
+/// very deep nesting (a chain of single-element arrays / objects) through the codec alone
+fn case_deep(ctx: &mut Ctx, sch: &Sch, depth: usize) {
+    let mut rng = ctx.rng.fork();
+    let case = json!({"kind": "deep", "sub": depth.to_string()});
+    let field = sch.fields[16].field; // stored-only json
+    let v = OwnedValue::Object(vec![("deep".to_string(), gen_deep(&mut rng, depth))]);
+    let expected = canon_fields(&[(field, v.clone())]);
+    let mut doc = TantivyDocument::default();
+    doc.add_field_value(field, &v);
+    ctx.report.case(&format!("deep|{depth}|{}", expected.len()), true);
+    ctx.report.count("codec-deep-nesting");
+    let res = catch_unwind(AssertUnwindSafe(|| -> Result<(Vec<u8>, String), String> {
+        let bytes = tantivy::verif::c09_serialize_doc(&doc, &sch.schema).map_err(|e| e.to_string())?;
+        let back = tantivy::verif::c09_deserialize_doc(&bytes).map_err(|e| e.to_string())?;
+        Ok((bytes, canon_doc(&back)))
+    }));
+    match res {
+        Ok(Ok((bytes, got))) => {
+            if got != expected {
+                ctx.report.violation("oracle", "C09:codec-roundtrip", format!("nesting depth {depth}: round trip differs"), case.clone());
+            }
+            let m = ctx.model.ask(&format!("C09 docdec {}", hex(&bytes)));
+            if m != expected {
+                ctx.report.violation("model", "C09:model-decode-real-bytes", format!("nesting depth {depth}: Lean codec disagrees"), case);
+            }
+        }
+        Ok(Err(e)) => ctx.report.violation("oracle", "C09:codec-roundtrip", format!("nesting depth {depth}: {e}"), case),
+        Err(_) => ctx.report.violation("oracle", "C09:codec-panic", format!("nesting depth {depth}: panic"), case),
+    }
+}
+
 fn case_vint(ctx: &mut Ctx) {
     use tantivy_common::{BinarySerializable, VInt};
     let mut vals: Vec<u64> = vec![0, 1, 127, 128, 129, 16383, 16384, u32::MAX as u64, 1 << 32, 1 << 35, (1 << 35) - 1, u64::MAX, u64::MAX - 1];
@@ -840,6 +871,50 @@ fn case_store(ctx: &mut Ctx, sub: u64) {
         ctx.report.violation("oracle", "C09:iter-differs", format!("iter_raw yields {} items, expected the {} documents in order", raw_ok.len(), docs.len()), case.clone());
         return;
     }
+    // iteration with deletes: exactly the live documents, in order (also against the model)
+    {
+        let pattern = rng.below(5);
+        let alive: Vec<bool> = (0..n)
+            .map(|i| match pattern {
+                0 => i % 2 == 0,
+                1 => i != 0 && i + 1 != n,
+                2 => !cps.iter().any(|c| c.0 as usize == i), // first document of every block deleted
+                3 => rng.chance(1, 10),
+                _ => rng.chance(3, 4),
+            })
+            .collect();
+        let mut bitset = tantivy_common::BitSet::with_max_value(n as u32);
+        for (i, a) in alive.iter().enumerate() {
+            if *a {
+                bitset.insert(i as u32);
+            }
+        }
+        let mut buf = vec![];
+        tantivy::fastfield::write_alive_bitset(&bitset, &mut buf).unwrap();
+        let ab = tantivy::fastfield::AliveBitSet::open(tantivy::directory::OwnedBytes::new(buf));
+        let got: Vec<Vec<u8>> = match catch_unwind(AssertUnwindSafe(|| tantivy::verif::c09_iter_raw(&reader, Some(&ab)))) {
+            Ok(v) => v.into_iter().filter_map(|r| r.ok()).collect(),
+            Err(_) => {
+                ctx.report.violation("oracle", "C09:iter-panic", "iter_raw with deletes panicked".into(), case);
+                return;
+            }
+        };
+        let want: Vec<Vec<u8>> = docs.iter().zip(alive.iter()).filter(|(_, a)| **a).map(|(d, _)| d.clone()).collect();
+        if got != want {
+            ctx.report.violation("oracle", "C09:iter-differs", format!("iter_raw with {} of {} documents deleted yields {} items, expected the {} live documents in order", n - want.len(), n, got.len(), want.len()), case.clone());
+            return;
+        }
+        ctx.report.count("store-iter-with-deletes");
+        if matches!(comp, Compressor::None) && file.len() <= 100_000 {
+            let bits: String = alive.iter().map(|a| if *a { '1' } else { '0' }).collect();
+            let mi = ctx.model.ask(&format!("C09 iter {} {}", hex(&file), bits));
+            let want_hex: Vec<String> = want.iter().map(|d| hex(d)).collect();
+            let want_hex = if want_hex.is_empty() { "-".to_string() } else { want_hex.join(",") };
+            if mi != want_hex {
+                ctx.report.violation("model", "C09:model-iter-real-file", "model iterRaw on the real store file differs from the live documents".into(), case.clone());
+            }
+        }
+    }
     // cache statistics against the model's LRU (block start offsets as keys)
     {
         let r2 = open_real(&file, cache).unwrap();
@@ -855,6 +930,32 @@ fn case_store(ctx: &mut Ctx, sub: u64) {
             ctx.report.violation("model", "C09:cache-stats", format!("CacheStats hits/misses/entries real {h}/{m}/{e} model {ms} (capacity {cache}, {} accesses)", seq.len()), case.clone());
         }
         ctx.report.count(&format!("cache-capacity:{cache}"));
+    }
+    // the skip index of the real file (any compressor): builder bytes and seek answers
+    if file.len() >= 28 && cps.len() <= 5000 {
+        let foot = &file[file.len() - 28..];
+        let offset = u64::from_le_bytes(foot[4..12].try_into().unwrap()) as usize;
+        if offset <= file.len() - 28 {
+            let skip = &file[offset..file.len() - 28];
+            let dls: Vec<u32> = cps.iter().map(|c| c.1 - c.0).collect();
+            let bls: Vec<usize> = cps.iter().map(|c| c.3 - c.2).collect();
+            let ms = ctx.model.ask(&format!("C09 skipser 8 {} {}", nat_list(&dls), nat_list(&bls)));
+            if ms != hex(skip) {
+                ctx.report.violation("model", "C09:skip-index-bytes", format!("skip index of the real file ({} checkpoints, {} bytes) differs from the model builder's", cps.len(), skip.len()), case.clone());
+            }
+            let mut targets: Vec<u32> = cps.iter().flat_map(|c| [c.0, c.1 - 1]).collect();
+            targets.extend([n as u32, n as u32 + 7]);
+            targets.truncate(600);
+            let want: Vec<String> = targets
+                .iter()
+                .map(|&t| cps.iter().find(|c| c.1 > t).map(|c| format!("{}-{}-{}-{}", c.0, c.1, c.2, c.3)).unwrap_or("none".into()))
+                .collect();
+            let mk = ctx.model.ask(&format!("C09 skipseek {} {}", hex(skip), nat_list(&targets)));
+            if mk != want.join(",") {
+                ctx.report.violation("model", "C09:skip-index-seek", format!("model seek on the real skip index bytes ({} checkpoints) differs from the checkpoint containing the target", cps.len()), case.clone());
+            }
+            ctx.report.count("store-skip-index-compared");
+        }
     }
     // model correspondence on whole files (compressor none)
     let total: usize = file.len();
@@ -914,6 +1015,24 @@ fn bucket(n: usize) -> &'static str {
         65..=511 => "65-511",
         512 => "512",
         _ => ">512",
+    }
+}
+
+/// behaviour on a store without any document (not reachable through an index: every segment
+/// has at least one document); recorded as a note, the model predicts the bogus checkpoint
+fn probe_empty_store(ctx: &mut Ctx) {
+    for comp in [Compressor::None, Compressor::Lz4] {
+        let res = catch_unwind(AssertUnwindSafe(|| {
+            let file = write_real_store(&[], comp, 100, false).unwrap();
+            let r = open_real(&file, 1).unwrap();
+            r.get_document_bytes(0).map(|b| b.len()).map_err(|e| short_err(&e.to_string()))
+        }));
+        let what = match res {
+            Ok(Ok(n)) => format!("returns {n} bytes"),
+            Ok(Err(e)) => format!("error: {e}"),
+            Err(_) => "panics".to_string(),
+        };
+        ctx.report.notes.push(format!("empty store ({}): get_document_bytes(0) {what} (SkipIndex::seek on an index without layers returns the initial checkpoint 0..1 / 0..0, see C09_skip_index_seek_empty_store)", compressor_name(&comp)));
     }
 }
 
@@ -1188,12 +1307,19 @@ fn case_index(ctx: &mut Ctx, sch: &Sch, sub: u64) {
     let mut rng = Rng::new(sub);
     let case = json!({"kind": "index", "sub": sub.to_string()});
     let st = Settings { comp: pick_compressor(&mut rng), bs: pick_blocksize(&mut rng, 16384), thread: rng.chance(1, 2) };
+    let sorted = match rng.below(8) {
+        0 => Some(tantivy::Order::Asc),
+        1 => Some(tantivy::Order::Desc),
+        _ => None,
+    };
     let settings = IndexSettings {
         docstore_compression: st.comp,
         docstore_blocksize: st.bs,
         docstore_compress_dedicated_thread: st.thread,
+        sort_by_field: sorted.map(|order| tantivy::IndexSortByField { field: "id".to_string(), order }),
         ..Default::default()
     };
+    ctx.report.count(if sorted.is_some() { "index-sorted(remap+mapped-merge)" } else { "index-unsorted" });
     ctx.report.count(&format!("index-compressor:{}", compressor_name(&st.comp)));
     ctx.report.count(&format!("index-thread:{}", st.thread));
     ctx.report.count(&format!("index-blocksize:{}", if st.bs <= 17 { "tiny" } else if st.bs < 16384 { "mid" } else { "default+" }));
@@ -1203,6 +1329,7 @@ fn case_index(ctx: &mut Ctx, sch: &Sch, sub: u64) {
         .map(|_| match rng.below(8) { 0 => 1, 1 => 2, 2 => 8, 3 => 9, 4 => 64 + rng.usize_below(3), 5 => 100 + rng.usize_below(60), _ => 3 + rng.usize_below(30) })
         .collect();
     let small_only = per_seg.iter().sum::<usize>() > 120;
+    let mut profiles: Vec<DocProfile> = vec![];
     let res = catch_unwind(AssertUnwindSafe(|| -> tantivy::Result<(Index, Expect, Vec<Vec<usize>>)> {
         let index = Index::create(RamDirectory::create(), sch.schema.clone(), settings)?;
         let mut w: IndexWriter = index.writer_with_num_threads(1, 30_000_000)?;
@@ -1214,6 +1341,7 @@ fn case_index(ctx: &mut Ctx, sch: &Sch, sub: u64) {
             for _ in 0..n {
                 let profile = if small_only { if rng.chance(1, 6) { DocProfile::Empty } else { DocProfile::Small } } else { pick_profile(&mut rng, allow_huge) };
                 let gd = gen_doc(&mut rng, sch, profile);
+                profiles.push(profile);
                 let id = exp.canon.len();
                 let mut doc = to_tantivy_doc(&gd.added);
                 doc.add_u64(sch.id, id as u64);
@@ -1239,6 +1367,9 @@ fn case_index(ctx: &mut Ctx, sch: &Sch, sub: u64) {
             return;
         }
     };
+    for p in &profiles {
+        ctx.report.count(&format!("index-doc-profile:{:?}", p));
+    }
     let total = exp.canon.len();
     let mut deleted = vec![false; total];
     let nontrivial_docs = exp.canon.iter().filter(|c| c.contains("A[") || c.contains("O{") || c.contains(';')).count();
@@ -1324,7 +1455,7 @@ fn case_index(ctx: &mut Ctx, sch: &Sch, sub: u64) {
     if !check_searcher(ctx, &mut rng, &index, sch, &exp, &deleted, "after merge", &case) {
         return;
     }
-    if matches!(st.comp, Compressor::None) {
+    if matches!(st.comp, Compressor::None) && sorted.is_none() {
         if let (Some(b), Some(after)) = (&before, segment_stores(&index)) {
             let size: usize = b.iter().map(|x| x.1.len()).sum();
             if after.len() == 1 && size <= 250_000 {
@@ -1412,6 +1543,8 @@ pub fn run(ctx: &mut Ctx) {
         "checkpoints decoded by the model = StoreReader::block_checkpoints".into(),
         "CacheStats hits/misses/entries = model LRU".into(),
         "merged store file (compressor none) = model mergeStores of the source files".into(),
+        "skip index bytes of real files (any compressor) = model SkipIndexBuilder; model seek on them = containing checkpoint".into(),
+        "model iterRaw on real files with deletes = live documents".into(),
     ];
     let sch = build_schema();
     if let Some(case) = ctx.replay.clone() {
@@ -1423,28 +1556,38 @@ pub fn run(ctx: &mut Ctx) {
             "index" => case_index(ctx, &sch, sub),
             "index2" => case_index_two_rounds(ctx, &sch, sub),
             "vint" => case_vint(ctx),
+            "deep" => case_deep(ctx, &sch, sub as usize),
             k => ctx.report.notes.push(format!("unknown replay kind {k}")),
         }
         return;
     }
     case_vint(ctx);
-    for _ in 0..ctx.budget(700, 12000) {
+    probe_empty_store(ctx);
+    for depth in [1usize, 2, 64, 127, 128, 300] {
+        case_deep(ctx, &sch, depth);
+    }
+    if ctx.thorough() {
+        for depth in [700usize, 1500] {
+            case_deep(ctx, &sch, depth);
+        }
+    }
+    for _ in 0..ctx.budget(1000, 15000) {
         let sub = ctx.rng.next_u64();
         case_codec(ctx, &sch, sub);
     }
-    for _ in 0..ctx.budget(260, 6000) {
+    for _ in 0..ctx.budget(320, 6000) {
         let sub = ctx.rng.next_u64();
         case_store(ctx, sub);
     }
-    for _ in 0..ctx.budget(60, 1500) {
+    for _ in 0..ctx.budget(80, 1500) {
         let sub = ctx.rng.next_u64();
         case_stack(ctx, sub);
     }
-    for _ in 0..ctx.budget(90, 2500) {
+    for _ in 0..ctx.budget(110, 2500) {
         let sub = ctx.rng.next_u64();
         case_index(ctx, &sch, sub);
     }
-    for _ in 0..ctx.budget(15, 400) {
+    for _ in 0..ctx.budget(20, 400) {
         let sub = ctx.rng.next_u64();
         case_index_two_rounds(ctx, &sch, sub);
     }
